@@ -514,12 +514,35 @@ fn sig_for(what: &str, text: &str, _expected: &str, _observed: &str) -> Option<S
         }
     }
     let agrees = |t: &str| matches!(check_list(t), Verdict::Ok(_));
+    // necessary conditions of the recorded defects on the list's top-level tokens (groups are single trees for the
+    // scanner), so that a different mis-split of a list that merely contains `|`, `<` or `as` is not attributed to them:
+    //  - binary `|` taken for a closure head: the scan needs a second top-level `|` to close the "parameter list"
+    //    (without one it fails at the end of the list and the token is taken on its own);
+    //  - `<` taken for a qualified path: some later top-level `>` must be followed by `::`;
+    //  - cast to a generic type: a top-level `as`.
+    let top: Vec<String> = text
+        .parse::<TokenStream>()
+        .ok()?
+        .into_iter()
+        .map(|tt| match tt {
+            proc_macro2::TokenTree::Group(_) => "(..)".to_string(),
+            other => other.to_string(),
+        })
+        .collect();
+    let pre = [
+        top.iter().any(|t| t == "as"),
+        top.iter().filter(|t| *t == "|").count() >= 2,
+        top.windows(3).any(|w| w[0] == ">" && w[1] == ":" && w[2] == ":"),
+    ];
     let base = rerender(&mut |_| {});
     let names = ["c16-cast-to-generic-type-split", "c16-binary-or-taken-for-closure", "c16-less-than-taken-for-qualified-path"];
     // smallest set of rewrites that makes the disagreement disappear
     let mut masks: Vec<u32> = (1u32..8).collect();
     masks.sort_by_key(|m| m.count_ones());
     for mask in masks {
+        if (0..3).any(|i| mask & (1 << i) != 0 && !pre[i]) {
+            continue;
+        }
         let t = rerender(&mut |e| {
             if mask & 1 != 0 {
                 NoGenericCast.visit_expr_mut(e);
